@@ -370,7 +370,16 @@ func (o *Once) Do(f func()) {
 
 // Map is a deterministic replacement for sync.Map: Range visits keys in
 // insertion order (sync.Map's order depends on a per-process hash seed, which
-// would break replay). Its methods are not scheduling points.
+// would break replay). Like an uncontended lock, each operation is a scheduling
+// point with the run's lock-yield probability: two goroutines that use the map
+// without further synchronisation (a cache lookup racing an invalidation) can
+// be interleaved between any two of its operations, as real threads can.
+func mapYield() {
+	if g := simrt.CurG(); g != nil {
+		lockYield(g, "mapop")
+	}
+}
+
 type Map struct {
 	mu   sync.Mutex
 	idx  map[any]int
@@ -381,6 +390,7 @@ type Map struct {
 }
 
 func (m *Map) Load(key any) (value any, ok bool) {
+	mapYield()
 	m.mu.Lock()
 	defer m.mu.Unlock()
 	i, ok := m.idx[key]
@@ -434,6 +444,7 @@ func (m *Map) deleteLocked(key any) (any, bool) {
 }
 
 func (m *Map) Store(key, value any) {
+	mapYield()
 	m.mu.Lock()
 	m.storeLocked(key, value)
 	m.mu.Unlock()
@@ -446,6 +457,7 @@ func (m *Map) Clear() {
 }
 
 func (m *Map) LoadOrStore(key, value any) (actual any, loaded bool) {
+	mapYield()
 	m.mu.Lock()
 	defer m.mu.Unlock()
 	if i, ok := m.idx[key]; ok {
@@ -456,6 +468,7 @@ func (m *Map) LoadOrStore(key, value any) (actual any, loaded bool) {
 }
 
 func (m *Map) LoadAndDelete(key any) (value any, loaded bool) {
+	mapYield()
 	m.mu.Lock()
 	defer m.mu.Unlock()
 	return m.deleteLocked(key)
